@@ -34,6 +34,7 @@ type chainDesc struct {
 	permDN   map[int]bool // issuer name = the issuer's subject with its attributes in another order (another DER, same text)
 	utf8DN   map[int]bool // issuer name = the issuer's subject with its values as UTF8String instead of PrintableString (other DER, same text)
 	akiRoot  bool         // the root carries an authority key identifier that differs from its subject key identifier (legal, unusual)
+	sha1     map[int]bool // certificate below the root signed (validly) with a SHA-1 based algorithm, which crypto/x509 does not accept as a signature
 	badSig   map[int]bool // signature value of the certificate at this position corrupted after issuance (content untouched)
 	// structural operation applied after forging
 	structural string
@@ -41,13 +42,16 @@ type chainDesc struct {
 	// signing time (nil = none)
 	signingTime  *time.Time
 	timeViolated bool
+	// lessThanASecondLate is the supplied signing time (same pointer) when it lies less than a second after a NotAfter: given to the
+	// validator as it is, it is outside the validity; a sign request carries whole seconds, so through Sign it is the NotAfter second itself
+	lessThanASecondLate *time.Time
 	labels       []string // mods applied, for traces
 }
 
 var caKeyCycle = []string{"p256-a", "p384-a", "rsa2048-a", "p256-b", "p384-b"}
 
 func newChainDesc(n int, leafKey string, p purposeKind) *chainDesc {
-	d := &chainDesc{n: n, wrongKey: map[int]bool{}, wrongDN: map[int]bool{}, permDN: map[int]bool{}, utf8DN: map[int]bool{}, badSig: map[int]bool{}}
+	d := &chainDesc{n: n, wrongKey: map[int]bool{}, wrongDN: map[int]bool{}, permDN: map[int]bool{}, utf8DN: map[int]bool{}, badSig: map[int]bool{}, sha1: map[int]bool{}}
 	for i := 0; i < n; i++ {
 		var t pki.Tmpl
 		switch {
@@ -175,6 +179,9 @@ func refChainOK(d *chainDesc, p purposeKind, withTime bool) (bool, string) {
 		if d.badSig[i] {
 			return false, fmt.Sprintf("pos %d signature value corrupted", i)
 		}
+		if d.sha1[i] {
+			return false, fmt.Sprintf("pos %d signed with a SHA-1 based algorithm", i)
+		}
 	}
 	if ok, why := refLeafOK(d.tm[0], kindOf(d.keys[0]), p); !ok {
 		return false, why
@@ -238,6 +245,7 @@ func (d *chainDesc) forge() []*x509.Certificate {
 			aki := append([]byte{0x30, 0x16, 0x80, 0x14}, bytes.Repeat([]byte{0xa5}, 20)...)
 			t.Extra = append(t.Extra, pkix.Extension{Id: asn1.ObjectIdentifier{2, 5, 29, 35}, Value: aki})
 		}
+		t.SHA1 = d.sha1[i]
 		certs[i] = pki.Issue(t, pki.K(d.keys[i]), parent, signer)
 		if d.badSig[i] {
 			der := append([]byte(nil), certs[i].DER...)
@@ -339,6 +347,15 @@ func chainMods(n int, p purposeKind) (viol []chainMod, benign []chainMod) {
 		v(fmt.Sprintf("issuer-name-attributes-reordered@%d", i), i, func(d *chainDesc) { d.permDN[i] = true })
 		v(fmt.Sprintf("signature-value-corrupted@%d", i), i, func(d *chainDesc) { d.badSig[i] = true })
 		v(fmt.Sprintf("issuer-name-values-as-utf8string@%d", i), i, func(d *chainDesc) { d.utf8DN[i] = true })
+		if i == n-1 && n >= 2 {
+			// a last certificate that carries its own name but was signed by another key, with a SHA-1 based algorithm: not self-signed,
+			// whatever the reason the signature cannot be checked for
+			v("last-certificate-self-issued-signed-by-another-key-with-sha1", i, func(d *chainDesc) { d.wrongKey[i], d.sha1[i] = true, true })
+		}
+		if i < n-1 {
+			// (the root's own signature is left out: whether a SHA-1 self-signature on a trust anchor matters is not something the statement decides)
+			v(fmt.Sprintf("signed-with-a-sha1-algorithm@%d", i), i, func(d *chainDesc) { d.sha1[i] = true })
+		}
 	}
 	// leaf
 	v("leaf-is-ca", 0, func(d *chainDesc) { d.tm[0].CA = true })
@@ -469,6 +486,22 @@ func chainMods(n int, p purposeKind) (viol []chainMod, benign []chainMod) {
 				_, na := narrow(d)
 				t := na.Add(time.Second)
 				d.signingTime, d.timeViolated = &t, true
+			})
+			// instants between two whole seconds: the bounds are inclusive, and nothing beyond them is inside
+			v(fmt.Sprintf("time-1ns-before-notbefore@%d", i), i, func(d *chainDesc) {
+				nb, _ := narrow(d)
+				t := nb.Add(-time.Nanosecond)
+				d.signingTime, d.timeViolated = &t, true
+			})
+			v(fmt.Sprintf("time-1ns-after-notafter@%d", i), i, func(d *chainDesc) {
+				_, na := narrow(d)
+				t := na.Add(time.Nanosecond)
+				d.signingTime, d.timeViolated, d.lessThanASecondLate = &t, true, &t
+			})
+			v(fmt.Sprintf("time-999999999ns-after-notafter-in-another-zone@%d", i), i, func(d *chainDesc) {
+				_, na := narrow(d)
+				t := na.Add(999999999 * time.Nanosecond).In(time.FixedZone("", 5*3600+1800))
+				d.signingTime, d.timeViolated, d.lessThanASecondLate = &t, true, &t
 			})
 			b(fmt.Sprintf("time-at-notbefore@%d", i), i, func(d *chainDesc) {
 				nb, _ := narrow(d)
